@@ -23,7 +23,7 @@ FMT = '%Y-%m-%dT%H:%M:%S'
 
 
 RULE += ' Since round 8: an empty Path= value.'
-RULE += ' Since round 19: foreign group headers before and between the two keys.'
+RULE += ' Since round 10: foreign group headers before and between the two keys.'
 
 
 def contents(rng, rel, k):
